@@ -26,9 +26,9 @@ structure RInv (c : Cluster) : Prop where
   uniq : ∀ a b, InCluster c a → InCluster c b → a.1 = b.1 → a.2.1 = b.2.1 →
     a.2.2.ts = b.2.2.ts → a.2.2 = b.2.2
   /-- no register stamped by a node lies in that node's future -/
-  own : ∀ i s, c.nodes[i]? = some s → ∀ a, InCluster c a → a.2.2.ts.rid = s.rid →
-    a.2.2.ts.time ≤ s.clock.time
-  rids : ∀ i s, c.nodes[i]? = some s → s.rid = i + 1 ∧ s.clock.rid = s.rid
+  own : ∀ (i : Nat) (s : Shard), c.nodes[i]? = some s → ∀ a, InCluster c a →
+    a.2.2.ts.rid = s.rid → a.2.2.ts.time ≤ s.clock.time
+  rids : ∀ (i : Nat) (s : Shard), c.nodes[i]? = some s → s.rid = i + 1 ∧ s.clock.rid = s.rid
   wf : ∀ s ∈ c.nodes, s.NodeWF ∧ s.Inv
   sent_wf : ∀ m ∈ c.sent, m.val.WF ∧ m.val.Dominated
 
@@ -88,6 +88,209 @@ theorem slots_merge {a b : RV} (ha : a.WF) (hb : b.WF) :
   · split
     · intro p hp; exact Or.inr hp
     · intro p hp; exact Or.inl hp
+
+/-! ### registers created by one local step are fresh -/
+
+/-- stamped by this node, after its old clock and not after its new clock -/
+def Fresh (c c' : Stamp) (r : Lww) : Prop :=
+  r.ts.rid = c.rid ∧ c.time < r.ts.time ∧ r.ts.time ≤ c'.time
+
+theorem hashSet_fold_regs (fs : List (Nat × Bytes)) (c0 c : Stamp) (h0 h : NMap Lww)
+    (hc : c0.time ≤ c.time) (hr : c.rid = c0.rid)
+    (hh : ∀ p ∈ h, p ∈ h0 ∨ Fresh c0 c p.2) :
+    ∀ p ∈ (fs.foldl Shard.hashSetStep (c, h)).2,
+      p ∈ h0 ∨ Fresh c0 (fs.foldl Shard.hashSetStep (c, h)).1 p.2 := by
+  induction fs generalizing c h with
+  | nil => simpa using hh
+  | cons f fs ih =>
+    simp only [List.foldl_cons, Shard.hashSetStep]
+    apply ih
+    · simp; omega
+    · simp [hr]
+    · intro p hp
+      rcases NMap.mem_insert hp with hp | hp
+      · subst hp
+        right
+        simp only [Fresh, Lww.set, Stamp.tick_time, Stamp.tick_rid]
+        exact ⟨hr, by omega, Nat.le_refl _⟩
+      · rcases hh p hp with h1 | h1
+        · exact Or.inl h1
+        · right
+          exact ⟨h1.1, h1.2.1, by have := h1.2.2; simp; omega⟩
+
+theorem hashDel_fold_regs (fs : List Nat) (c0 c : Stamp) (h0 h : NMap Lww)
+    (hc : c0.time ≤ c.time) (hr : c.rid = c0.rid)
+    (hh : ∀ p ∈ h, p ∈ h0 ∨ Fresh c0 c p.2) :
+    ∀ p ∈ (fs.foldl Shard.hashDelStep (c, h)).2,
+      p ∈ h0 ∨ Fresh c0 (fs.foldl Shard.hashDelStep (c, h)).1 p.2 := by
+  induction fs generalizing c h with
+  | nil => simpa using hh
+  | cons f fs ih =>
+    simp only [List.foldl_cons, Shard.hashDelStep]
+    split
+    · apply ih
+      · simp; omega
+      · simp [hr]
+      · intro p hp
+        rcases NMap.mem_insert hp with hp | hp
+        · subst hp
+          right
+          simp only [Fresh, Lww.delete, Stamp.tick_time, Stamp.tick_rid]
+          exact ⟨hr, by omega, Nat.le_refl _⟩
+        · rcases hh p hp with h1 | h1
+          · exact Or.inl h1
+          · right
+            exact ⟨h1.1, h1.2.1, by have := h1.2.2; simp; omega⟩
+    · exact ih c h hc hr hh
+
+theorem fresh_mono {c c' c'' : Stamp} {r : Lww} (h : Fresh c c' r) (hle : c'.time ≤ c''.time) :
+    Fresh c c'' r := ⟨h.1, h.2.1, Nat.le_trans h.2.2 hle⟩
+
+/-- the registers of the value a local step stores/emits are old registers of that key or
+    fresh ones -/
+theorem local_val_regs (s : Shard) (op : LOp) (d : RV) (hd : (Shard.step s op.toOp).2 = some d) :
+    ∀ p ∈ d.crdt.slots,
+      (∃ old, NMap.get s.keys op.key = some old ∧ p ∈ old.crdt.slots) ∨
+        Fresh s.clock (Shard.step s op.toOp).1.clock p.2 := by
+  cases op with
+  | write k v e =>
+    simp only [LOp.toOp, Shard.step, LOp.key] at hd ⊢
+    have hd' := Option.some.inj hd
+    subst hd'
+    intro p hp
+    simp only [Shard.recordWrite, Crdt.slots, List.mem_singleton] at hp
+    subst hp
+    right
+    simp [Fresh, Shard.recordWrite, Lww.set]
+  | delete k =>
+    simp only [LOp.toOp, Shard.step, LOp.key] at hd ⊢
+    cases hg : NMap.get s.keys k with
+    | none => rw [Shard.recordDelete_none hg] at hd; simp at hd
+    | some rv =>
+      by_cases hc0 : rv.crdt.kind = 0
+      · obtain ⟨r, hr⟩ := Shard.kind_lww hc0
+        rw [Shard.recordDelete_lww hg hr] at hd ⊢
+        have hd' := Option.some.inj hd
+        subst hd'
+        intro p hp
+        simp only [Crdt.slots, List.mem_singleton] at hp
+        subst hp
+        right
+        simp [Fresh, Lww.delete]
+      · by_cases hc5 : rv.crdt.kind = 5
+        · obtain ⟨m, hm⟩ := Shard.kind_hash hc5
+          rw [Shard.recordDelete_hash hg hm] at hd ⊢
+          have hd' := Option.some.inj hd
+          subst hd'
+          intro p hp
+          simp only [Shard.delHashValue, Crdt.slots] at hp
+          obtain ⟨q, _, rfl⟩ := NMap.mem_mapVal hp
+          right
+          simp [Fresh, Lww.delete]
+        · rw [Shard.recordDelete_other hg hc0 hc5] at hd ⊢
+          have hd' := Option.some.inj hd
+          subst hd'
+          intro p hp
+          exact Or.inl ⟨rv, rfl, hp⟩
+  | hwrite k fs =>
+    simp only [LOp.toOp, Shard.step, LOp.key] at hd ⊢
+    have hd' := Option.some.inj hd
+    subst hd'
+    intro p hp
+    simp only [Shard.recordHashWrite, Crdt.slots] at hp
+    have := hashSet_fold_regs fs s.clock s.clock
+      ((NMap.get s.keys k).getD { RV.new s.rid with crdt := .hash [] }).crdt.hashOf
+      ((NMap.get s.keys k).getD { RV.new s.rid with crdt := .hash [] }).crdt.hashOf
+      (Nat.le_refl _) rfl (fun q hq => Or.inl hq) p hp
+    rcases this with h1 | h1
+    · left
+      cases hg : NMap.get s.keys k with
+      | none => rw [hg] at h1; simp [Crdt.hashOf] at h1
+      | some old =>
+        rw [hg] at h1
+        simp only [Option.getD_some] at h1
+        refine ⟨old, rfl, ?_⟩
+        cases hc : old.crdt <;> rw [hc] at h1 <;> simp only [Crdt.hashOf] at h1 <;>
+          first
+            | exact absurd h1 List.not_mem_nil
+            | (simp only [Crdt.slots]; exact h1)
+    · right; exact h1
+  | hdelete k fs =>
+    simp only [LOp.toOp, Shard.step, LOp.key] at hd ⊢
+    cases hg : NMap.get s.keys k with
+    | none => rw [Shard.recordHashDelete_none hg] at hd; simp at hd
+    | some rv =>
+      by_cases hc5 : rv.crdt.kind = 5
+      · obtain ⟨m, hm⟩ := Shard.kind_hash hc5
+        rw [Shard.recordHashDelete_hash hg hm] at hd ⊢
+        have hd' := Option.some.inj hd
+        subst hd'
+        intro p hp
+        simp only [Shard.hdelValue, Crdt.slots] at hp
+        have := hashDel_fold_regs fs s.clock s.clock m m (Nat.le_refl _) rfl
+          (fun q hq => Or.inl hq) p hp
+        rcases this with h1 | h1
+        · left; exact ⟨rv, rfl, by rw [hm]; exact h1⟩
+        · right; exact h1
+      · rw [Shard.recordHashDelete_other hg hc5] at hd; simp at hd
+
+/-- registers of the node state after a local step: old ones or fresh ones -/
+theorem local_shard_regs (s : Shard) (op : LOp) (hw : NMap.WF (Shard.step s op.toOp).1.keys) :
+    ∀ a ∈ shardRegs (Shard.step s op.toOp).1,
+      a ∈ shardRegs s ∨ Fresh s.clock (Shard.step s op.toOp).1.clock a.2.2 := by
+  intro a ha
+  cases hd : (Shard.step s op.toOp).2 with
+  | none =>
+    rw [Shard.local_none s op hd] at ha
+    exact Or.inl ha
+  | some d =>
+    obtain ⟨v, hv, hs⟩ := mem_shardRegs.mp ha
+    by_cases hk : a.1 = op.key
+    · have hg := Shard.local_get s op d hd
+      have hg' := NMap.get_of_mem hw hv
+      simp only at hg'
+      rw [hk, hg] at hg'
+      have : v = d := (Option.some.inj hg').symm
+      subst this
+      rcases local_val_regs s op v hd _ hs with ⟨old, ho, hp⟩ | hf
+      · left
+        apply mem_shardRegs.mpr
+        exact ⟨old, by rw [hk]; exact NMap.mem_of_get ho, hp⟩
+      · right; exact hf
+    · left
+      apply mem_shardRegs.mpr
+      have hg' := NMap.get_of_mem hw hv
+      simp only at hg'
+      rw [Shard.keys_step_other s op a.1 hk] at hg'
+      exact ⟨v, NMap.mem_of_get hg', hs⟩
+
+/-- registers after applying a remote delta come from the old state or from the delta -/
+theorem remote_shard_regs (s : Shard) (k : Nat) (d : RV) (hwf : s.NodeWF) (hd : d.WF)
+    (hk : NMap.WF s.keys) :
+    ∀ a ∈ shardRegs (Shard.applyRemote s k d), a ∈ shardRegs s ∨ a ∈ valRegs k d := by
+  intro a ha
+  obtain ⟨v, hv, hs⟩ := mem_shardRegs.mp ha
+  simp only [Shard.applyRemote] at hv
+  rcases NMap.mem_insert hv with h1 | h1
+  · have hk1 : a.1 = k := by have := congrArg Prod.fst h1; simpa using this
+    have hv1 := congrArg Prod.snd h1
+    simp only at hv1
+    cases hg : NMap.get s.keys k with
+    | none =>
+      rw [hg] at hv1
+      simp only at hv1
+      subst hv1
+      exact Or.inr (mem_valRegs.mpr ⟨hk1, hs⟩)
+    | some l =>
+      rw [hg] at hv1
+      simp only at hv1
+      subst hv1
+      have hl : l.WF := hwf.2 _ (NMap.mem_of_get hg)
+      rcases slots_merge hl hd _ hs with h2 | h2
+      · left
+        exact mem_shardRegs.mpr ⟨l, by rw [hk1]; exact NMap.mem_of_get hg, h2⟩
+      · exact Or.inr (mem_valRegs.mpr ⟨hk1, h2⟩)
+  · exact Or.inl (mem_shardRegs.mpr ⟨v, h1, hs⟩)
 
 end Cluster
 end RedisVerif
